@@ -189,6 +189,7 @@ fn round_trip_chunk(rep: &mut Report, chunk: &[Sh], base: usize) {
         let mut ctx = Context::default();
         let mut jobs: Vec<EqJob> = vec![];
         for (i, sh) in sub.iter().enumerate() {
+            crate::panics::set_context(format!("C14 round trip of shape {}", sh.show()));
             let idx = base + sci * 100 + i;
             rep.count("programs", 1);
             let nm = c05::namer(idx);
@@ -461,6 +462,7 @@ fn stream_part(rep: &mut Report, instances: &[Sh], tier: Tier, seed: u64, only: 
             let mut hard = miter::Portfolio::new(10_000);
             let mut ctx = Context::default();
             for (k, (ia, ib)) in chunk.iter().enumerate() {
+                crate::panics::set_context(format!("C14 command stream for shapes {} and {}", instances[*ia].show(), instances[*ib].show()));
                 if k % 25 == 24 {
                     ctx = Context::default();
                 }
@@ -669,6 +671,7 @@ fn reader_semantics_part(rep: &mut Report) {
         cases.push(("store", "(store (store m i a) (bvnot i) b)".into(), Ty::Arr(2, w)));
         cases.push(("const", format!("((as const {arr}) a)"), Ty::Arr(2, w)));
         for (name, text, want_ty) in cases {
+            crate::panics::set_context(format!("C14 reader semantics of `{text}`"));
             if !emitted(name) {
                 rep.count("operator_spellings_not_found_in_writer_source", 1);
                 continue;
